@@ -184,12 +184,16 @@ Proof.
 Qed.
 
 (* ---------- flat units ---------- *)
-Definition first_ok (e : expr) : Prop :=
-  match e with XAnd (x :: _) => is_single_or x = false | _ => True end.
+Definition first_ok (v : nat -> tv) (e : expr) : Prop :=
+  match e with
+  | XAnd (x :: _) => is_single_or x = false
+  | XAtom a na => v na = tv_not (v a)       (* the negated atom is the Kleene negation *)
+  | _ => True
+  end.
 Definition unit_result (v : nat -> tv) (conds : list expr) (mm : option (sem * sem)) : Prop :=
   (conds = [] /\ mm = None) \/
   exists e m n nx, conds = [e] /\ mm = Some (m, n) /\
-    okx e = true /\ closedx e = true /\ is_or e = false /\ first_ok e /\ dx v e = sev v m /\
+    okx e = true /\ closedx e = true /\ is_or e = false /\ first_ok v e /\ dx v e = sev v m /\
     mk_not [e] = Some nx /\
     okx nx = true /\ closedx nx = true /\ is_or nx = false /\ dx v nx = sev v n.
 
@@ -235,6 +239,7 @@ Proof.
   - left. split; reflexivity.
   - right. cbn [atoms_of map mk_and is_or olist]. exists (XAtom (fst p) (snd p)), (SAtom (fst p)), (SNot (SAtom (fst p))), (XNot [XAtom (fst p) (snd p)]).
     repeat split; try reflexivity.
+    + exact (Hn p (or_introl eq_refl)).
     + apply dx_atom.
     + unfold dx. rewrite toE_not. cbn. rewrite (Hn p (or_introl eq_refl)). destruct (v (fst p)); reflexivity.
   - right. set (ms := p :: q :: r) in *. set (l := atoms_of ms).
@@ -352,7 +357,21 @@ Qed.
 
 (* the relation, with the facts needed to go through Where.Build *)
 Definition R' (v : nat -> tv) (e : expr) (p : bool * sem) : Prop :=
-  R v e p /\ is_or e = fst p /\ first_ok e.
+  R v e p /\ is_or e = fst p /\ first_ok v e.
+
+(* units the chain method Not can be applied to inside the theorem's domain: flat units, and
+   groups with at least two effective members that either contain an OR alternative (negated as a
+   whole) or have a member with a structured negation (every member negated); the remaining
+   group shape is the known finding of 9.2 *)
+Definition negatable (tbl : atom_table) (u : unit_) : bool :=
+  match u with
+  | UGroup cs =>
+    match build_chain tbl cs with
+    | Some ((_ :: _ :: _) as wh) => existsb is_single_or (tl wh) || existsb is_atom wh
+    | _ => false
+    end
+  | _ => flat tbl u
+  end.
 
 Definition group_first_ok (tbl : atom_table) (cs : list call) : bool :=
   match build_chain tbl cs with Some (e :: _) => negb (is_single_or e) | _ => true end.
@@ -363,14 +382,14 @@ Fixpoint domx (tbl : atom_table) (u : unit_) : bool :=
     (fix go (l : list (ckind * unit_)) : bool :=
        match l with
        | [] => true
-       | (k, u') :: r => domx tbl u' && (match k with KNot => flat tbl u' | _ => true end) && go r
+       | (k, u') :: r => domx tbl u' && (match k with KNot => negatable tbl u' | _ => true end) && go r
        end) cs
   | _ => flat tbl u
   end.
 Fixpoint calls_domx (tbl : atom_table) (cs : list call) : bool :=
   match cs with
   | [] => true
-  | (k, u) :: r => domx tbl u && (match k with KNot => flat tbl u | _ => true end) && calls_domx tbl r
+  | (k, u) :: r => domx tbl u && (match k with KNot => negatable tbl u | _ => true end) && calls_domx tbl r
   end.
 Lemma domx_group tbl cs : domx tbl (UGroup cs) = group_first_ok tbl cs && calls_domx tbl cs.
 Proof.
@@ -380,13 +399,13 @@ Qed.
 Definition unit_res (v : nat -> tv) (isflat : bool) (conds : list expr) (mm : option (sem * sem)) : Prop :=
   (conds = [] /\ mm = None) \/
   exists e m n, conds = [e] /\ mm = Some (m, n) /\
-    okx e = true /\ closedx e = true /\ is_or e = false /\ first_ok e /\ dx v e = sev v m /\
+    okx e = true /\ closedx e = true /\ is_or e = false /\ first_ok v e /\ dx v e = sev v m /\
     (isflat = true -> exists nx, mk_not [e] = Some nx /\
        okx nx = true /\ closedx nx = true /\ is_or nx = false /\ dx v nx = sev v n).
 
 Definition Punit (v : nat -> tv) (tbl : atom_table) (u : unit_) : Prop :=
   forall conds mm, domx tbl u = true -> neg_pairs_ok v (unit_pairs u) ->
-  build_cond tbl u = Some conds -> umean tbl u = Some mm -> unit_res v (flat tbl u) conds mm.
+  build_cond tbl u = Some conds -> umean tbl u = Some mm -> unit_res v (negatable tbl u) conds mm.
 
 Lemma neg_pairs_app v a b : neg_pairs_ok v (a ++ b) -> neg_pairs_ok v a /\ neg_pairs_ok v b.
 Proof. intros H. split; intros p Hp; apply H, in_or_app; auto. Qed.
@@ -422,7 +441,7 @@ Proof.
         rewrite <- app_assoc. split; [reflexivity|]. constructor; [|exact HF].
         repeat split; cbn [fst snd]; try assumption.
         -- destruct nx; try reflexivity; discriminate.
-        -- destruct nx; try exact I. cbn in Hmk. destruct e; inversion Hmk.
+        -- destruct nx; try exact I; exfalso; cbn in Hmk; destruct e; inversion Hmk.
       * cbn [mk_and] in Hb. rewrite Hnor in Hb.
         destruct (IH _ _ _ HPr Hdr Hnr Hb eq_refl) as [new [-> HF]]. exists (XOr [e] :: new).
         rewrite <- app_assoc. split; [reflexivity|]. constructor; [|exact HF].
@@ -438,8 +457,8 @@ Qed.
 Lemma R'_R v l sq : Forall2 (R' v) l sq -> Forall2 (R v) l sq.
 Proof. induction 1 as [|e p l sq [H _] _ IH]; constructor; assumption. Qed.
 
-Lemma flat_to_res v tbl u conds mm :
-  unit_result v conds mm -> unit_res v (flat tbl u) conds mm.
+Lemma flat_to_res v b conds mm :
+  unit_result v conds mm -> unit_res v b conds mm.
 Proof.
   intros [H|H]; [left; exact H|].
   destruct H as (e & m & n & nx & -> & -> & H1 & H2 & H3 & H4 & H5 & H6 & H7 & H8 & H9 & H10).
@@ -449,6 +468,32 @@ Qed.
 Lemma seq_of_cons k m n l : seq_of ((k, (m, n)) :: l) =
   (match k with KWhere => (false, m) | KNot => (false, n) | KOr => (true, m) end) :: seq_of l.
 Proof. destruct k; reflexivity. Qed.
+
+Lemma closedx_not_multi l : gt1 l = true -> closedx (XNot l) = true.
+Proof.
+  intros Hg. unfold closedx. rewrite toE_not, Hg.
+  destruct (existsb is_atom l && negb (existsb is_single_or (tl l))); apply orb_true_r.
+Qed.
+
+Lemma hasor_eq v : forall lm l, Forall2 (R' v) l (seq_of lm) ->
+  existsb is_single_or l = existsb (fun kmn : ckind * (sem * sem) => match fst kmn with KOr => true | _ => false end) lm.
+Proof.
+  induction lm as [|[k [m n]] lm IH]; intros l H; inversion H as [|e p l' sq' He Hr]; subst; [reflexivity|].
+  cbn [existsb fst]. rewrite (IH _ Hr). destruct He as [[_ [_ [Hs _]]] _]. rewrite Hs. destruct k; reflexivity.
+Qed.
+
+Lemma negs_R v : forall l sq, Forall2 (R' v) l sq ->
+  evT v (negsT l) = sev v (SAnd (map (fun bs : bool * sem => SNot (snd bs)) sq)).
+Proof.
+  induction 1 as [|e p l sq He _ IH]; [reflexivity|].
+  destruct He as [[_ [Hc [_ Hd]]] [_ Hf]].
+  cbn [negsT map]. rewrite evT_cons, IH.
+  change (sev v (SAnd (SNot (snd p) :: map (fun bs : bool * sem => SNot (snd bs)) sq)))
+    with (tv_and (tv_not (sev v (snd p))) (sev v (SAnd (map (fun bs : bool * sem => SNot (snd bs)) sq)))).
+  f_equal. rewrite <- Hd.
+  destruct e as [a na| | | | |]; try (cbn [evF]; rewrite evF_item by exact Hc; reflexivity).
+  cbn [evF]. cbn [first_ok] in Hf. rewrite Hf, dx_atom. reflexivity.
+Qed.
 
 Lemma all_units v tbl : forall u, Punit v tbl u.
 Proof.
@@ -472,10 +517,12 @@ Proof.
       destruct k; cbn [fst] in *.
       * (* Where *) assert (Hwh : (match [x] with [XOr l] => [XAnd l] | _ => [x] end) = [x]) by (destruct x; try reflexivity; discriminate).
         rewrite Hwh in Hb. cbn [mk_and olist] in Hb. rewrite Horx in Hb. cbn [olist mk_and] in Hb. rewrite Horx in Hb.
-        inversion Hb; inversion Hm; subst. exists x, m, n. repeat split; try assumption. discriminate.
+        inversion Hb; inversion Hm; subst. exists x, m, n. repeat split; try assumption.
+        unfold negatable, build_chain. rewrite Ew. discriminate.
       * (* Not *) assert (Hwh : (match [x] with [XOr l] => [XAnd l] | _ => [x] end) = [x]) by (destruct x; try reflexivity; discriminate).
         rewrite Hwh in Hb. cbn [mk_and olist] in Hb. rewrite Horx in Hb. cbn [olist mk_and] in Hb. rewrite Horx in Hb.
-        inversion Hb; inversion Hm; subst. exists x, n, (SNot n). repeat split; try assumption. discriminate.
+        inversion Hb; inversion Hm; subst. exists x, n, (SNot n). repeat split; try assumption.
+        unfold negatable, build_chain. rewrite Ew. discriminate.
       * (* Or: the group would start with an OR alternative: excluded by group_first_ok *)
         destruct x as [| | | |l|]; try discriminate. destruct l as [|a [|? ?]]; discriminate.
     + (* at least two effective members: AND/OR list in parentheses *)
@@ -487,14 +534,47 @@ Proof.
       assert (Hoks : oksL wh = true) by (eapply R'_oksL; exact HFall).
       destruct lm0 as [|kmn lm1]; [discriminate|].
       destruct (val_list_R v wh _ (R'_R _ _ _ HFall) ltac:(discriminate)) as [b0 [s0 [r0 [Hsq Hval]]]].
-      assert (Hmm : exists N, mm = Some (prec_sem (seq_of ((k, (m, n)) :: kmn :: lm1)), N))
-        by (destruct k; inversion Hm; eexists; reflexivity).
-      destruct Hmm as [N ->].
-      exists (XAnd wh), (prec_sem (seq_of ((k, (m, n)) :: kmn :: lm1))), N.
+      set (lmf := (k, (m, n)) :: kmn :: lm1) in *.
+      set (M := prec_sem (seq_of lmf)).
+      set (has_or := existsb (fun kmn0 : ckind * (sem * sem) => match fst kmn0 with KOr => true | _ => false end) (tl lmf)).
+      set (N := if negb has_or && gt1 lmf then SAnd (map (fun bs : bool * sem => SNot (snd bs)) (seq_of lmf)) else SNot M).
+      assert (Hmm : mm = Some (M, N)) by (unfold lmf in *; destruct k; inversion Hm; reflexivity).
+      subst mm.
+      exists (XAnd wh), M, N.
+      assert (HdxA : dx v (XAnd wh) = sev v M).
+      { rewrite dx_and by (exact Hoks || reflexivity). rewrite Hval, <- Hsq. reflexivity. }
       repeat split; try reflexivity; try discriminate.
       * rewrite okx_and. exact Hoks.
       * unfold wh. cbn [first_ok]. destruct (is_single_or x); [discriminate Hfirst|reflexivity].
-      * rewrite dx_and by (exact Hoks || reflexivity). rewrite Hval, <- Hsq. reflexivity.
+      * exact HdxA.
+      * (* the chain method Not over this group *)
+        intros Hneg. unfold negatable, build_chain in Hneg. rewrite Ew in Hneg. fold wh in Hneg.
+        change (match wh with _ :: _ :: _ => existsb is_single_or (tl wh) || existsb is_atom wh | _ => false end)
+          with (existsb is_single_or (tl wh) || existsb is_atom wh) in Hneg.
+        exists (XNot wh). split; [reflexivity|].
+        assert (Hor : existsb is_single_or (tl wh) = has_or).
+        { unfold has_or, lmf, wh. cbn [tl]. apply (hasor_eq v). rewrite <- Hsq1. constructor; assumption. }
+        split; [rewrite okx_not; exact Hoks|].
+        split; [apply closedx_not_multi; reflexivity|].
+        split; [reflexivity|].
+        unfold dx. rewrite toE_not.
+        destruct (existsb is_atom wh && negb (existsb is_single_or (tl wh))) eqn:Eflag.
+        -- (* every member negated *)
+           apply andb_prop in Eflag. destruct Eflag as [_ Eno]. apply negb_true_iff in Eno.
+           replace (gt1 wh) with true by reflexivity.
+           rewrite evE_single, evT_single, evF_par, evE_single.
+           rewrite (negs_R v wh _ HFall).
+           unfold N. rewrite <- Hor, Eno. reflexivity.
+        -- (* negated as a whole *)
+           assert (Eor : existsb is_single_or (tl wh) = true).
+           { destruct (existsb is_single_or (tl wh)); [reflexivity|].
+             cbn [orb] in Hneg. rewrite Hneg in Eflag. discriminate. }
+           assert (HtoE : match wh with [] => FPar [] | [e] => itemF e | e :: r => FPar (grpE r [itemF e]) end
+                          = FPar (toE_list wh)) by reflexivity.
+           rewrite HtoE, evE_single, evT_single.
+           change (evF v (FNot (FPar (toE_list wh)))) with (tv_not (evE v (toE_list wh))).
+           rewrite evE_toE_list by (apply oksL_allclosed, Hoks || discriminate).
+           rewrite Hval, <- Hsq. unfold N. rewrite <- Hor, Eor. reflexivity.
 Qed.
 
 (* ---------- the whole chain ---------- *)
